@@ -123,6 +123,13 @@ CHECKS.update({
    note=TB_Z + " Ranges are bounded and stated in the evidence; Miller-Rabin determinism below 3.4e14 is a literature fact, not proved; bernoulli numerics, mangoldt, cyclotomic, bernpoly/eulerpoly not decided."),
 })
 
+
+CHECKS.update({
+ "C33": dict(level="proof", engine="A", technique="Coq theorems (induction over operation histories) for the memoize and matrix-LU cache state machines; extracted machines run against the live objects on random operation sequences; random evaluation histories with injected faults followed by probes compared with a fresh process",
+   text="ctx.memoize and the matrix LU cache are modelled as state machines and proved, for every history, never to serve a value computed at lower precision than requested or for an older version of the data (item assignment and resizing invalidate). The machines are extracted and compared step by step with real matrices / memoised functions. For the remaining caches (constants, Bernoulli numbers, log/atan/cos-sin tables, quadrature nodes, summators, odefun segments) random histories at random precisions, partly aborted by faults injected at internal primitives, are followed by probe evaluations that must agree to rounding level (8 ulp) with the same probe in a fresh process.",
+   note=TB_Z + " The history/probe part is exploration (sampled histories); two genuine defects found this way were fixed (LU cache keyed by precision / cleared on resize; mpf_bernoulli first-call rounding)."),
+})
+
 NOT_APPLICABLE = {
 }
 
